@@ -320,7 +320,13 @@ struct Pr<'a> {
 
 impl Pr<'_> {
     fn ext(&self, i: usize) -> &str {
-        self.exts.get(i).copied().unwrap_or("txt")
+        let e = self.exts.get(i).copied().unwrap_or("txt");
+        e.split('!').next().unwrap()
+    }
+    /// `Some(kind)`: the name exists but looking it up fails — `s` the source does not compile,
+    /// `r` the loader returns InvalidOperation, `c` the loader returns another error kind
+    fn broken(&self, i: usize) -> Option<char> {
+        self.exts.get(i).and_then(|e| e.split_once('!')).and_then(|(_, k)| k.chars().next())
     }
     /// the name template `i` is registered under
     fn reg(&self, i: usize) -> String {
@@ -406,7 +412,10 @@ fn print_items(pr: &Pr, t: &Tmpl, items: &[Item], used: &mut Vec<usize>, out: &m
                     _ => ("", ctx_marker(k)),
                 };
                 let ig = if *ign { " ignore missing" } else { "" };
-                let target = if names.len() == 1 {
+                let target = if names.len() == 1 && k % 5 == 3 {
+                    // the name comes from a variable
+                    format!("dyn{}", names[0])
+                } else if names.len() == 1 {
                     format!("\"{}\"", pr.rf(names[0]))
                 } else {
                     let l: Vec<String> = names.iter().map(|n| format!("\"{}\"", pr.rf(*n))).collect();
@@ -461,12 +470,24 @@ fn source_of(pr: &Pr, t: &Tmpl) -> String {
 }
 
 // ------------------------------------------------------------------ engine
+fn kind_of(e: &Error) -> String {
+    let k = format!("{:?}", e.kind());
+    if k == "SyntaxError" {
+        // a syntax error carries the name of the template that does not compile
+        let name = e.name().unwrap_or("?");
+        let base = name.rsplit('/').next().unwrap_or(name);
+        format!("{k}@{}", base.split('.').next().unwrap_or(base))
+    } else {
+        k
+    }
+}
+
 fn kind_chain(e: &Error) -> String {
-    let mut v = vec![format!("{:?}", e.kind())];
+    let mut v = vec![kind_of(e)];
     let mut cur: &dyn std::error::Error = e;
     while let Some(s) = cur.source() {
         if let Some(m) = s.downcast_ref::<Error>() {
-            v.push(format!("{:?}", m.kind()));
+            v.push(kind_of(m));
         }
         cur = s;
     }
@@ -508,9 +529,7 @@ fn context(pr: &Pr) -> Value {
     ctx.insert("c1".into(), Value::from(true));
     ctx.insert("c0".into(), Value::from(false));
     ctx.insert("v0".into(), Value::from(V0));
-    for i in 0..100 {
-        ctx.insert(format!("dyn{i}"), Value::from(pr.rf(i)));
-    }
+    let _ = pr;
     Value::from(ctx)
 }
 
@@ -541,7 +560,7 @@ fn join_path<'a>(name: &'a str, parent: &str) -> std::borrow::Cow<'a, str> {
     std::borrow::Cow::Owned(rv.join("/"))
 }
 
-fn make_env(cfg: Cfgv, sources: &[(String, String)]) -> Result<Environment<'static>, Error> {
+fn make_env(cfg: Cfgv, sources: &[(String, String, Option<char>)], dyn_names: &[String]) -> Result<Environment<'static>, Error> {
     let mut env = Environment::new();
     if cfg.syntax {
         env.set_syntax(
@@ -562,20 +581,43 @@ fn make_env(cfg: Cfgv, sources: &[(String, String)]) -> Result<Environment<'stat
         3 => minijinja::UndefinedBehavior::Strict,
         _ => minijinja::UndefinedBehavior::Lenient,
     });
-    if cfg.loader {
+    // names held in variables are globals, so that they also resolve on a fresh state
+    for (i, v) in dyn_names.iter().enumerate() {
+        env.add_global(format!("dyn{i}"), Value::from(v.clone()));
+    }
+    // templates that cannot be loaded only exist behind a loader
+    if cfg.loader || sources.iter().any(|x| x.2.is_some()) {
         // loader-backed: the templates are compiled on first use
-        let map: BTreeMap<String, String> = sources.iter().cloned().collect();
-        env.set_loader(move |name| Ok(map.get(name).cloned()));
+        let map: BTreeMap<String, (String, Option<char>)> =
+            sources.iter().map(|(n, s, b)| (n.clone(), (s.clone(), *b))).collect();
+        env.set_loader(move |name| match map.get(name) {
+            None => Ok(None),
+            Some((_, Some('r'))) => Err(Error::new(minijinja::ErrorKind::InvalidOperation, "the loader refuses this template")),
+            Some((_, Some('c'))) => Err(Error::new(minijinja::ErrorKind::BadSerialization, "the loader failed on this template")),
+            Some((src, _)) => Ok(Some(src.clone())),
+        });
         // surface syntax errors of the generator like add_template would
-        for (n, _) in sources {
-            env.get_template(n)?;
+        for (n, _, b) in sources {
+            if b.is_none() {
+                env.get_template(n)?;
+            }
         }
     } else {
-        for (n, s) in sources {
+        for (n, s, _) in sources {
             env.add_template_owned(n.clone(), s.clone())?;
         }
     }
     Ok(env)
+}
+
+/// sources that do not compile (several kinds of syntax error)
+fn broken_source(pr: &Pr, i: usize) -> String {
+    match i % 4 {
+        0 => format!("<K>{}", pr.blk("if")),
+        1 => format!("<K>{}", pr.var("1 +")),
+        2 => format!("<K>{}", pr.blk("endblock")),
+        _ => format!("<K>{}{}", pr.blk("for x in"), pr.blk("endfor")),
+    }
 }
 
 struct Outcome {
@@ -595,8 +637,15 @@ struct Outcome {
 fn run_case(c: &Case, variant: usize) -> Outcome {
     let cfg = cfg_of(&c.fam);
     let pr = Pr { exts: c.tmpls.iter().map(|t| t.ext.as_str()).collect(), cfg };
-    let mut sources: Vec<(String, String)> =
-        c.tmpls.iter().enumerate().map(|(i, t)| (pr.reg(i), source_of(&pr, t))).collect();
+    let mut sources: Vec<(String, String, Option<char>)> = c
+        .tmpls
+        .iter()
+        .enumerate()
+        .map(|(i, t)| match pr.broken(i) {
+            Some(k) => (pr.reg(i), broken_source(&pr, i), Some(k)),
+            None => (pr.reg(i), source_of(&pr, t), None),
+        })
+        .collect();
     let wexts = ["html", "txt", "json", "xml.j2"];
     let wext = wexts[variant % 4];
     let inc = pr.blk(&format!("include \"{}\"", pr.rf(0)));
@@ -606,15 +655,23 @@ fn run_case(c: &Case, variant: usize) -> Outcome {
         _ => format!("{}{inc}{}", pr.blk("autoescape \"none\""), pr.blk("endautoescape")),
     };
     let wname = if cfg.pathjoin { format!("d0/w.{wext}") } else { format!("w.{wext}") };
-    sources.push((wname.clone(), wsrc));
+    sources.push((wname.clone(), wsrc, None));
     let skip = |res: String, detail: String| Outcome { res, detail, meta: "skip".into(), rblock: "skip".into(), fresh: "skip".into() };
     let r = guarded(|| {
-        let env = match make_env(cfg, &sources) {
+        let dyn_names: Vec<String> = (0..100).map(|i| pr.rf(i)).collect();
+        let env = match make_env(cfg, &sources, &dyn_names) {
             Ok(env) => env,
             Err(e) => return skip(format!("syntax:{}", error_kind_name(&e)), "syntax".to_string()),
         };
         let main = pr.reg(0);
-        let t = env.get_template(&main).unwrap();
+        let t = match env.get_template(&main) {
+            Ok(t) => t,
+            Err(e) => {
+                // the main template itself cannot be loaded: every entry point reports that
+                let r = format!("err:{}", kind_chain(&e));
+                return Outcome { res: r.clone(), detail: "load-error".into(), meta: "skip".into(), rblock: r.clone(), fresh: r };
+            }
+        };
         let (res, detail) = res_of(t.render(context(&pr)));
         let bname = format!("b{}", cfg.blk);
         let rblock = match t.render_captured(context(&pr)) {
@@ -730,7 +787,11 @@ const AUX_M: usize = 4; // module: top-level set/macro + scoped sets
 const AUX_S: usize = 5; // super() at top level
 const AUX_I: usize = 6; // includes AUX_X, sets v6 at top level
 const AUX_E: usize = 7; // module whose block body includes a missing template
-const AUX_N: usize = 8; // number of aux templates; len+AUX_N.. are missing names
+const AUX_K: usize = 8; // exists but does not compile
+const AUX_KR: usize = 9; // the loader refuses it (InvalidOperation)
+const AUX_KC: usize = 10; // the loader fails with another error kind
+const AUX_RT: usize = 11; // compiles, fails at its first instruction
+const AUX_N: usize = 12; // number of aux templates; len+AUX_N.. are missing names
 
 fn aux_templates(len: usize) -> Vec<Tmpl> {
     let root = len - 1;
@@ -799,11 +860,15 @@ fn aux_templates(len: usize) -> Vec<Tmpl> {
     e.blocks.insert(7, vec![tx("E:b7".into()), Incl { names: vec![len + AUX_N], ign: false }]);
     e.ext = "yaml".into();
     v.push(e);
+    for (ext, _) in [("html!s", AUX_K), ("txt!r", AUX_KR), ("json!c", AUX_KC)] {
+        v.push(Tmpl { ext: ext.into(), ..Tmpl::default() });
+    }
+    v.push(Tmpl { layout: vec![CallVar(77), tx("RT".into())], blocks: BTreeMap::new(), ext: "txt".into() });
     v
 }
 
 /// a snippet of items exercising include/import (index into a fixed menu)
-const N_SNIPPETS: usize = 30;
+const N_SNIPPETS: usize = 38;
 fn snippet(k: usize, len: usize) -> Vec<Item> {
     let a = |x: usize| len + x;
     let miss = len + AUX_N;
@@ -837,6 +902,14 @@ fn snippet(k: usize, len: usize) -> Vec<Item> {
         26 => vec![SelfCall(2)],
         27 => vec![SetSelf(5, 1), Text("(".into()), EmitVar(5), Text(")".into())],
         28 => vec![SelfCall(0)],
+        30 => vec![Incl { names: vec![a(AUX_K)], ign: false }],
+        31 => vec![Incl { names: vec![a(AUX_K)], ign: true }],
+        32 => vec![Incl { names: vec![miss, a(AUX_K), a(AUX_X)], ign: true }],
+        33 => vec![Incl { names: vec![a(AUX_KR)], ign: true }],
+        34 => vec![ImportAs(a(AUX_KC), 8)],
+        35 => vec![FromImport(a(AUX_K), 2, 7)],
+        36 => vec![Incl { names: vec![a(AUX_RT)], ign: true }],
+        37 => vec![Incl { names: vec![miss, a(AUX_KC)], ign: true }],
         _ => vec![Incl { names: vec![a(AUX_Q)], ign: false }, Incl { names: vec![a(AUX_X)], ign: false }],
     }
 }
@@ -1376,12 +1449,100 @@ fn mode_families(out: &mut Vec<Case>) {
     }
 }
 
+/// lookups that fail although the name exists: templates that do not compile (`!s`), that the
+/// loader refuses (`!r`) or fails on with another kind (`!c`), referenced from include (single,
+/// lists with the broken name at each position, with and without `ignore missing`), extends,
+/// import, from-import, through chains and blocks, and as the rendered template itself
+fn load_error_families(out: &mut Vec<Case>) {
+    for kind in ["txt!s", "html!r", "json!c", "xml!s"] {
+        let broken = Tmpl { ext: kind.into(), ..Tmpl::default() };
+        let okt = simple(vec![tx("OK".into()), EmitVar(0)], vec![]);
+        // t0 uses t1 (broken) and t2 (fine); 50/51 are missing
+        let lists: Vec<Vec<usize>> = vec![vec![1], vec![50, 1, 2], vec![1, 2], vec![2, 1], vec![50, 51, 1], vec![50, 1]];
+        for ign in [false, true] {
+            for names in &lists {
+                for place in 0..4usize {
+                    let inc = vec![Incl { names: names.clone(), ign }];
+                    let mut l = vec![tx("T0:a".into())];
+                    let mut blocks = vec![];
+                    match place {
+                        0 => l.extend(inc),
+                        1 => {
+                            l.push(CallBlock(0));
+                            blocks.push((0, {
+                                let mut b = vec![tx("T0:b0".into())];
+                                b.extend(inc);
+                                b
+                            }));
+                        }
+                        2 => l.extend(wrap(1, inc)),
+                        _ => l.extend(wrap(2, inc)),
+                    }
+                    l.push(tx("T0:z".into()));
+                    out.push(Case { fam: "load-error-include".into(), tmpls: vec![simple(l, blocks), broken.clone(), okt.clone()] });
+                }
+            }
+        }
+        // import / from-import of a template that cannot be loaded
+        for item in [ImportAs(1, 8), FromImport(1, 2, 7)] {
+            for place in 0..2usize {
+                let mut l = vec![tx("T0:a".into())];
+                let mut blocks = vec![];
+                if place == 0 {
+                    l.push(item.clone());
+                } else {
+                    l.push(CallBlock(0));
+                    blocks.push((0, vec![item.clone(), tx("T0:b0".into())]));
+                }
+                l.push(tx("T0:z".into()));
+                out.push(Case { fam: "load-error-import".into(), tmpls: vec![simple(l, blocks), broken.clone()] });
+            }
+        }
+        // a valid child extending a broken parent (directly, and two levels up), with blocks
+        for m in ['s', 'd', 'c'] {
+            let t0 = simple(vec![tx("T0:pre".into()), ext(m, 1), CallBlock(0)], vec![(0, vec![tx("T0:b0".into()), Super])]);
+            out.push(Case { fam: "load-error-extends".into(), tmpls: vec![t0, broken.clone()] });
+            let t0 = simple(vec![ext(m, 2), CallBlock(0)], vec![(0, vec![tx("T0:b0".into())])]);
+            let t2 = simple(vec![tx("T2:pre".into()), ext('s', 1), CallBlock(0)], vec![(0, vec![tx("T2:b0".into())])]);
+            out.push(Case { fam: "load-error-extends".into(), tmpls: vec![t0, broken.clone(), t2] });
+        }
+        // a block of the parent includes the broken template; the child reaches it through super()
+        for ign in [false, true] {
+            let t0 = simple(vec![ext('s', 2), CallBlock(0)], vec![(0, vec![tx("T0:b0".into()), Super])]);
+            let t2 = simple(
+                vec![tx("T2".into()), CallBlock(0)],
+                vec![(0, vec![tx("T2:b0".into()), Incl { names: vec![50, 1], ign }])],
+            );
+            out.push(Case { fam: "load-error-include".into(), tmpls: vec![t0, broken.clone(), t2] });
+        }
+        // an included (valid) template whose own include / extends hits the broken one
+        for inner in [vec![Incl { names: vec![1], ign: true }], vec![ext('s', 1)]] {
+            let t0 = simple(vec![tx("T0:a".into()), Incl { names: vec![2], ign: true }, tx("T0:z".into())], vec![]);
+            let mut l2 = vec![tx("T2:a".into())];
+            l2.extend(inner);
+            out.push(Case { fam: "load-error-include".into(), tmpls: vec![t0, broken.clone(), simple(l2, vec![])] });
+        }
+        // the rendered template itself cannot be loaded
+        out.push(Case { fam: "load-error-main".into(), tmpls: vec![broken.clone()] });
+    }
+    // compiles but fails at its first instruction: never forgiven either
+    for ign in [false, true] {
+        for names in [vec![1usize], vec![50, 1, 2]] {
+            let t0 = simple(vec![tx("T0:a".into()), Incl { names, ign }, tx("T0:z".into())], vec![]);
+            let t1 = simple(vec![CallVar(77), tx("T1".into())], vec![]);
+            let t2 = simple(vec![tx("OK".into())], vec![]);
+            out.push(Case { fam: "runtime-error-include".into(), tmpls: vec![t0, t1, t2] });
+        }
+    }
+}
+
 fn cases(tier: &str) -> Vec<Case> {
     let thorough = tier == "thorough";
     let mut rng = Rng::new(seed_from_env());
     let mut out = vec![];
     regressions(&mut out);
     mode_families(&mut out);
+    load_error_families(&mut out);
     error_families(&mut out);
     all_small(&mut out, thorough);
     let n_plain = if thorough { 50_000 } else { 2_500 };
@@ -1407,6 +1568,8 @@ fn cases(tier: &str) -> Vec<Case> {
             _ => 0,
         };
         let b = h.below(3);
+        // templates that cannot be loaded only exist behind a loader
+        let l = if c.tmpls.iter().any(|t| t.ext.contains('!')) { 1 } else { l };
         c.fam = format!("{}~{l}{sy}{p}{u}{b}", c.fam);
     }
     out
@@ -1540,7 +1703,10 @@ fn main() {
                     if cmd == "src" {
                         let pr = Pr { exts: c.tmpls.iter().map(|t| t.ext.as_str()).collect(), cfg: cfg_of(&c.fam) };
                         for (i, t) in c.tmpls.iter().enumerate() {
-                            println!("{}: {}", pr.reg(i), source_of(&pr, t));
+                            match pr.broken(i) {
+                                Some(k) => println!("{} [load error {k}]: {}", pr.reg(i), broken_source(&pr, i)),
+                                None => println!("{}: {}", pr.reg(i), source_of(&pr, t)),
+                            }
                         }
                     }
                     for variant in 0..12 {
